@@ -18,7 +18,8 @@ does not start a character reference (the alphabet has no ``;`` so data cannot s
 that apply a second, position- or case-sensitive operation to already escaped markup are checked for the four
 characters only (such operations may legitimately cut or re-case a character reference).
 
-``jinja2.utils.select_autoescape`` itself gets mode A conditions over symbolic template names.
+``jinja2.utils.select_autoescape`` itself is checked on an exhaustive mode-B table of template names (selector function and what the
+environment then does) and by search-only conditions over a symbolic name string (``str.lower`` realises it, so these cannot confirm).
 """
 import re
 from typing import List
@@ -56,8 +57,8 @@ SUSPECTED_DEFECTS = [
     "D2 compiler.visit_AssignBlock wraps the result of a set-block filter in Markup without escaping it: "
     "Environment(autoescape=True).from_string('{% set x | striptags %}{{ u }}{% endset %}{{ x }}').render(u='<b>') == '<b>' "
     "(striptags un-escapes; likewise any filter returning a plain str from the captured markup); excluded: bodies tagged D2",
-    "D3 filters.do_indent wraps a plain-string width in Markup when the receiver is Markup: "
-    "Environment(autoescape=True).from_string('{{ (\"a\\na\"|safe)|indent(u) }}').render(u='<s>') == 'a\\n<s>a'; excluded: bodies tagged D3",
+    "D3 (repaired in /repo by 'fix: indent filter escapes a plain string width for safe input'; the bodies are checked again) filters.do_indent wrapped a "
+    "plain-string width in Markup when the receiver was Markup: '{{ (\"a\\na\"|safe)|indent(u) }}' with u='<s>' gave 'a\\n<s>a'",
     "D4 runtime.Macro.__call__ marks the result safe according to the *caller's* autoescape flag although the macro body was compiled without "
     "escaping: env = Environment(autoescape=select_autoescape(), loader=DictLoader({'lib.txt': '{% macro m(x) %}[{{ x }}]{% endmacro %}', "
     "'a.html': '{% import \"lib.txt\" as lib %}{{ lib.m(u) }}'})); env.get_template('a.html').render(u='<b>') == '[<b>]'; excluded: bodies tagged D4",
@@ -98,7 +99,7 @@ class B:
     def __init__(self, src, kind="", tag="", flags=False):
         self.src = src          # '@' = subject (data variable u / literal), optional wrapper insertion marks « »
         self.kind = kind        # "" strong / "w" weak (four characters only) / urlize / xmlattr / tojson
-        self.tag = tag          # "" or D2..D5: known defect on the unchanged tree (skipped, see SUSPECTED_DEFECTS)
+        self.tag = tag          # "" or D2/D4/D5: known defect on the unchanged tree (skipped, see SUSPECTED_DEFECTS)
         self.flags = flags      # uses b1 / n
 
 
@@ -125,7 +126,7 @@ G["args"] = [B(s, k, t, True) for s, k, t in [
     ("[{{ @|indent(n, b1, b1) }}]", "", ""),
     ('[{{ (@ ~ "\\n\\n" ~ @)|indent(n + 1, b1, not b1) }}]', "", ""),
     ('[{{ "a\\na"|indent(@, b1) }}]', "", ""),
-    ('[{{ ("a\\na"|safe)|indent(@, b1) }}]', "", "D3"),
+    ('[{{ ("a\\na"|safe)|indent(@, b1) }}]', "", ""),
     ('[{{ ("a\\na"|safe)|indent(n, b1) ~ @ }}]', "", ""),
     ("[{{ @|truncate(n, b1, @, 0) }}]", "", ""),
     ('[{{ "aaa aaa aaa"|truncate(n + 3, b1, @) }}]', "", ""),
@@ -294,7 +295,7 @@ G["fblock"] = (
         "{% filter default(@) %}{% endfilter %}", "{% filter upper|lower|e %}[{{ @ }}]{% endfilter %}", "{% filter center(9)|trim(@) %}{{ @ }}{% endfilter %}",
         '{% filter format(@) %}[%s]{% endfilter %}',
     ]]
-    + [B("{% filter indent(@) %}a\na{% endfilter %}", "", "D3"), B("{% filter striptags|e %}[{{ @ }}]{% endfilter %}"),
+    + [B("{% filter indent(@) %}a\na{% endfilter %}"), B("{% filter striptags|e %}[{{ @ }}]{% endfilter %}"),
        B("{% filter join(@) %}a{{ @ }}{% endfilter %}", "w", "D2"), B("{% filter wordwrap(2, true, @) %}aaaa{{ @ }}{% endfilter %}", "w", "D2"),
        B("{% filter join(@)|e %}a{{ @ }}{% endfilter %}", "w")]
 )
@@ -334,9 +335,9 @@ class W:
         self.env.globals["gflag"] = True
         self.cache = {}
         self.noisy = {}
-        # which recorded defects show under this wrapper: D2/D3 everywhere, D4 where *.txt helpers are not autoescaped, D5 where an
+        # which recorded defects show under this wrapper: D2 everywhere, D4 where *.txt helpers are not autoescaped, D5 where an
         # enabling region sits in a non-escaping environment
-        self.defects = {"D2", "D3"} | ({"D4"} if callable(autoescape) else set()) | ({"D5"} if pre and not autoescape else set())
+        self.defects = {"D2"} | ({"D4"} if callable(autoescape) else set()) | ({"D5"} if pre and not autoescape else set())
 
     def compile(self, src):
         src = apply_marks(src, self.pre, self.post)
@@ -454,16 +455,21 @@ def check_body(w, body, s, b1, n, literal):
         return 0          # known defect on the unchanged tree, see SUSPECTED_DEFECTS
     if literal:
         src = body.src.replace("@", jlit(s))
-        if w.volatile_off and _const_output_in_volatile(w.env, apply_marks(src, w.pre, w.post)):
-            return 0      # D1
         key = (w.name, src)
         t = _LIT_CACHE.get(key)
         if t is None:
-            try:
-                t = w.compile(src)
-            except Exception as e:
-                t = e
+            if w.volatile_off and _const_output_in_volatile(w.env, apply_marks(src, w.pre, w.post)):
+                t = "D1"
+            else:
+                try:
+                    t = w.compile(src)
+                except Exception as e:
+                    t = e
+            if len(_LIT_CACHE) > 6000:
+                _LIT_CACHE.clear()
             _LIT_CACHE[key] = t
+        if t == "D1":
+            return 0      # D1
     else:
         t = w.cache.get(body.src)
         if t is None:
@@ -514,7 +520,7 @@ def bodies_ok(codes: List[int], b1: bool, n: int) -> bool:
         return rendered > 0
 
 
-# ------------------------------------------------------------------------------------------------ select_autoescape (mode A)
+# ------------------------------------------------------------------------------------------------ select_autoescape
 EXT_EN = ("html", "htm", "xml")
 EXT_DIS = ("txt", "j2")
 SEL_FNS = {}
@@ -594,7 +600,7 @@ def conditions(tier, seed):
             if not thorough and wn not in full and g not in ("ops", "struct", "args"):
                 continue
             flags = g == "args" or (g in ("ops", "struct") and (thorough or wn in full))
-            size = 400 if not thorough else 200
+            size = 400 if not thorough else (25 if g == "struct" else 200)
             for part in _parts(len(G[g]), size):
                 nm = f"{g}[{wn}" + (f",{part[0]}-{part[1]}" if len(G[g]) > size else "") + "]"
                 wit = [[[0, 5], True, 1], [[3, 2], True, 1], [[4, 1, 6][:L], True, 1], [[2], True, 1]]
